@@ -518,6 +518,38 @@ func genReload(rng *rand.Rand, pools []plugin.Pool) ([]plugin.Pool, string) {
 			}
 		}
 	}
+	if rng.Intn(100) < 40 {
+		// change mask / gateway / vlan of a pool (addresses and node subnets stay): addresses it has already handed out must
+		// from now on be written with the NEW values
+		i := rng.Intn(len(out))
+		switch k := rng.Intn(3); {
+		case k == 0:
+			out[i].Vlan = out[i].Vlan + 9
+			return out, "pool-vlan-changed"
+		case k == 1 && len(out[i].Ranges) > 0:
+			// another gateway inside the pod subnet that no pool uses and no range contains
+			for d := uint32(250); d > 200; d-- {
+				g := out[i].Gateway&^255 | d
+				free := true
+				for _, q := range out {
+					free = free && q.Gateway != g && !inRanges(q.Ranges, g)
+				}
+				if free {
+					out[i].Gateway = g
+					return out, "pool-gateway-changed"
+				}
+			}
+		case k == 2 && out[i].Bits == 24:
+			// /24 -> /23 for every pool of this pod subnet (they stay one pod subnet)
+			sub := out[i].Gateway >> 8
+			for j := range out {
+				if out[j].Gateway>>8 == sub {
+					out[j].Bits = 23
+				}
+			}
+			return out, "pool-mask-changed"
+		}
+	}
 	victim := all[rng.Intn(len(all))]
 	replace := func(with plugin.Subnet) {
 		for i := range out {
